@@ -159,6 +159,8 @@ type replayCase struct {
 	A     string `json:"a"`
 	B     string `json:"b,omitempty"`
 	Codec string `json:"codec,omitempty"` // for round-trip cases: domain name
+	// Assertion restricts the replay to the oracle that failed (one case can fail several oracles)
+	Assertion string `json:"assertion,omitempty"`
 }
 
 // H is the per-process harness state (single goroutine).
@@ -174,7 +176,10 @@ type H struct {
 	failCnt  map[string]int64
 	scratch  map[string]bool // per-case dedupe of produced values
 	replay   bool
-	replayOp string // replay: only failures of this exact form are reported
+	replayOp string // replay: only failures of this assertion are reported
+	// distinct lattice points whose exact result is not representable: a rounding decision was needed /
+	// the result lies beyond the bound
+	nontrivRounding, nontrivOverflow int64
 	codecOn  bool
 }
 
@@ -192,9 +197,10 @@ func (h *H) fail(assertion, sig, class, detail string, rc replayCase) {
 	if h.countOn || !h.canon {
 		h.failCnt[assertion]++
 	}
+	rc.Assertion = assertion
 	v := core.Violation{Property: h.f.Prop, Assertion: assertion, Signature: sig, Detail: "class=" + class + " " + detail, Replay: rc}
 	if h.replay {
-		if h.replayOp == "" || rc.Op == h.replayOp {
+		if h.replayOp == "" || assertion == h.replayOp {
 			h.r.AddViolation(v)
 		}
 		return
@@ -370,10 +376,19 @@ func (h *H) evalCase(op *opSpec, ra, rb *big.Int, alias bool) {
 			h.vac("negative_inexact_quotients")
 		}
 	}
+	inexact := ok && lastInexact
 	lastTie, lastTieOnlyAfterTruncation, lastInexact, lastNeg = false, false, false, false
 	expectPanic, overflow := !ok, false
 	if ok && !op.dom.fits(want) {
 		expectPanic, overflow = true, true
+	}
+	if h.countOn {
+		switch {
+		case overflow:
+			h.nontrivOverflow++
+		case inexact && op.mode != mExact:
+			h.nontrivRounding++
+		}
 	}
 	if ok && h.countOn && (op.dom == dBig || op.dom == dDec) {
 		lim := maxBigRaw
